@@ -138,13 +138,17 @@ def mergeLists : List (Nat × Nat) → List (Nat × Nat) → List (Nat × Nat)
     else (x, a) :: mergeLists s ((y, b) :: o)
 termination_by s o => s.length + o.length
 
+/-- `merged_abunds`: `Some` only when both operands track abundances; then the walk's abundances -/
+def Vec.mergedAbunds (s o : Vec) : Option (List Nat) :=
+  match s.abunds, o.abunds with
+  | some sa, some oa => some ((mergeLists (s.mins.zip sa) (o.mins.zip oa)).map Prod.snd)
+  | _, _ => none
+
 /-- `merge` after `check_compatible` succeeded: abundances only when both operands track them;
     truncate to `self.num` when it is non-zero (`other.num` is never consulted); reset. -/
 def Vec.merge (s o : Vec) : Vec :=
   let merged := mergeMins s.mins o.mins
-  let mergedAb : Option (List Nat) := match s.abunds, o.abunds with
-    | some sa, some oa => some ((mergeLists (s.mins.zip sa) (o.mins.zip oa)).map Prod.snd)
-    | _, _ => none
+  let mergedAb := s.mergedAbunds o
   if merged.length > s.num && s.num != 0 then
     ({ s with mins := merged.take s.num, abunds := mergedAb.map (List.take s.num) }).reset
   else ({ s with mins := merged, abunds := mergedAb }).reset
@@ -245,6 +249,24 @@ def lastOr0 (l : List Nat) : Nat := l.getLast?.getD 0
 
 def Tree.reset (s : Tree) : Tree := { s with md5 := none }
 
+/-- the insertion inside the "good hash" branch:
+    `if self.mins.insert(hash) { reset; if hash > current_max { current_max = hash } }` and then
+    `*abunds.entry(hash).or_insert(0) += abundance` -/
+def Tree.insertHash (s : Tree) (h a : Nat) : Tree :=
+  let r := insSet s.mins h
+  let s1 := if r.2 then
+      ({ s with mins := r.1, currentMax := if h > s.currentMax then h else s.currentMax }).reset
+    else s
+  { s1 with abunds := s1.abunds.map (fun m => mapAdd m h a) }
+
+/-- "is it too big now?": remove the largest hash and its abundance, reset, recompute `current_max` -/
+def Tree.evictLargest (s : Tree) : Tree :=
+  let last := lastOr0 s.mins
+  let m' := s.mins.filter (· != last)
+  ({ s with mins := m',
+            abunds := s.abunds.map (fun (mp : List (Nat × Nat)) => mp.filter (fun kv => kv.1 != last)),
+            currentMax := lastOr0 m' }).reset
+
 /-- `add_hash_with_abundance` -/
 def Tree.add (s : Tree) (h a : Nat) : Tree :=
   if h > s.maxHash && s.maxHash != 0 then s else
@@ -254,28 +276,20 @@ def Tree.add (s : Tree) (h a : Nat) : Tree :=
   if s.mins.isEmpty then
     ({ s with mins := (insSet s.mins h).1, abunds := s.abunds.map (fun m => mapAdd m h a), currentMax := h }).reset
   else if h ≤ s.maxHash || h ≤ s.currentMax || s.mins.length < s.num then
-    let r := insSet s.mins h
-    -- `if self.mins.insert(hash) { reset; if hash > current_max { current_max = hash } }`
-    let s1 := if r.2 then
-        ({ s with mins := r.1, currentMax := if h > s.currentMax then h else s.currentMax }).reset
-      else s
-    let s2 := { s1 with abunds := s1.abunds.map (fun m => mapAdd m h a) }
-    -- too big now: remove the largest and its abundance, reset, recompute current_max
-    if s2.num != 0 && s2.mins.length > s2.num then
-      let last := lastOr0 s2.mins
-      let m' := s2.mins.filter (· != last)
-      ({ s2 with mins := m',
-                 abunds := s2.abunds.map (fun (mp : List (Nat × Nat)) => mp.filter (fun kv => kv.1 != last)),
-                 currentMax := lastOr0 m' }).reset
-    else s2
+    let s2 := s.insertHash h a
+    if s2.num != 0 && s2.mins.length > s2.num then s2.evictLargest else s2
   else s
 
-/-- `remove_hash` -/
+/-- `if self.mins.remove(&hash) { reset; abunds.remove(&hash) }` -/
+def Tree.removeFromSet (s : Tree) (h : Nat) : Tree :=
+  if s.mins.contains h then
+    ({ s with mins := s.mins.filter (· != h),
+              abunds := s.abunds.map (fun (mp : List (Nat × Nat)) => mp.filter (fun kv => kv.1 != h)) }).reset
+  else s
+
+/-- `remove_hash`: the removal, then `if hash == current_max { current_max = largest or 0 }` -/
 def Tree.remove (s : Tree) (h : Nat) : Tree :=
-  let s1 := if s.mins.contains h then
-      ({ s with mins := s.mins.filter (· != h),
-                abunds := s.abunds.map (fun (mp : List (Nat × Nat)) => mp.filter (fun kv => kv.1 != h)) }).reset
-    else s
+  let s1 := s.removeFromSet h
   if h == s1.currentMax then { s1 with currentMax := lastOr0 s1.mins } else s1
 
 def Tree.removeMany (s : Tree) (hs : List Nat) : Tree := hs.foldl Tree.remove s
